@@ -8,6 +8,10 @@
 //! Exit codes: 0 property held on everything explored; 1 violation (a line
 //! `VIOLATION property=C16 replay=<path>` is printed); 2 harness error.
 
+#[path = "../../dsim/src/engine.rs"]
+#[allow(dead_code)]
+mod engine;
+mod cache;
 mod run;
 mod scenario;
 mod server;
@@ -51,21 +55,22 @@ fn meta() -> PropMeta {
         level: "exploration",
         quick_secs: 20.0,
         thorough_secs: 300.0,
-        rule: "each evaluation = one seeded scenario (recycling method, pool size and timeouts, 1..3 client op scripts over gets/returns/takes/resizes/retains/prepares/uses/cache and registry clears, per-connection server fault script) run on a current_thread tokio runtime with paused clock against the real deadpool-postgres + tokio-postgres over an in-memory pipe, every op checked against the reference model; distinct = distinct hash of the per-run sequence (op kind, outcome class, fault kind fired); non-trivial = at least one fault fired, or a cache hit after a miss on a connection recycled in between, or two client tasks had overlapping operations",
+        rule: "each evaluation = one seeded scenario (recycling method, pool size and timeouts, 1..3 client op scripts over gets/returns/takes/resizes/retains/prepares/uses/cache and registry clears, per-connection server fault script) run on a current_thread tokio runtime with paused clock against the real deadpool-postgres + tokio-postgres over an in-memory pipe, every op checked against the reference model; distinct = distinct hash of the per-run sequence (op kind, outcome class, fault kind fired); non-trivial = at least one fault fired, or a cache hit after a miss on a connection recycled in between, or two client tasks had overlapping operations. Thread-level half (30% of the budget, engine E1): one seeded scenario = 1..2 shared clients, 2..4 virtual threads with scripts over prepare{shared / own client, key, server error, cancellable} / remove / clear / size / registry clear / registry remove / attach (Manager::create) / detach, enabled schedule points at every cache / registry lock operation and counter update, run under one seeded schedule; at rest size() is compared with the keys really cached, per client, and the registry clear with the set of attached clients",
     }
 }
 
 fn real_vs_stub() -> serde_json::Value {
     json!({
         "real": ["deadpool_postgres::{Manager, ClientWrapper, StatementCache, StatementCaches, RecyclingMethod}", "deadpool::managed::{Pool, Object} (get, return, take, resize, retain, close, timeouts)", "tokio_postgres client, codec and Connection future (connect_raw handshake, simple and extended query protocol)", "tokio current_thread scheduler, tokio time driver on a paused clock"],
-        "simulated": ["transport (tokio::io::duplex instead of a socket, via the crate's own Connect trait)", "PostgreSQL server (scripted: startup, Query, Parse/Describe/Sync, Bind/Execute/Sync, Close, Terminate; faults by message index)", "wall clock (paused, auto-advancing)"],
+        "simulated": ["OS thread scheduling for the thread-level half (coroutines + seeded controller; every lock operation of StatementCache / StatementCaches and every size counter update is a schedule point; replies are delivered by a network pump the controller runs after every step)", "transport (tokio::io::duplex instead of a socket, via the crate's own Connect trait)", "PostgreSQL server (scripted: startup, Query, Parse/Describe/Sync, Bind/Execute/Sync, Close, Terminate; faults by message index)", "wall clock (paused, auto-advancing)"],
         "not_exercised": ["TLS", "Transaction / TransactionBuilder wrappers (share the same StatementCache methods)", "non built-in types (typeinfo catalogue queries)", "async-std runtime branch"]
     })
 }
 
 fn assumptions() -> Vec<String> {
     vec![
-        "tasks interleave only at awaits (single-threaded FIFO scheduler); interleavings are varied through explicit yields / sleeps in the scenario, not through a schedule search".into(),
+        "task-level half: tasks interleave only at awaits (single-threaded FIFO scheduler); interleavings are varied through explicit yields / sleeps in the scenario, not through a schedule search".into(),
+        "thread-level half: interleavings are sequentially consistent and preempt at every lock / unlock of the statement cache and the cache registry, before every update of the size counter and at awaits; pool operations are not part of it (they are C01-C13's subject)".into(),
         "the scripted server answers like PostgreSQL for the message subset used (unspecified parameter types resolve to TEXT); only built-in type OIDs occur".into(),
         "connection identity is taken from BackendKeyData.process_id echoed in a CancelRequest written to a capture stream; idle clients are inspected through Pool::verif_snapshot (cfg deadpool_verif)".into(),
         "bounded exploration by seeded sampling: a clean batch is evidence within the stated bounds, not proof".into(),
@@ -102,9 +107,24 @@ fn check(id: &str, args: &[String]) -> i32 {
         known,
         corpus_dir: Some(vd.join("corpus").join(id)),
     };
+    // task-level histories against the scripted server first (engine E2), then the thread-level
+    // half: statement cache and cache registry under a controlled scheduler (engine E1)
+    let mut cfg = cfg;
+    let only = arg_val(args, "--only");
     let h = Pg;
+    cfg.secs = if only.as_deref() == Some("cache") { 0.0 } else if only.as_deref() == Some("net") { secs } else { secs * 0.7 };
     let r = run_batch(&h, &cfg);
-    finish(&h, id, &tier, seed, &m, r, real_vs_stub(), assumptions())
+    if r.found.is_some() || r.harness_error.is_some() || only.as_deref() == Some("net") {
+        return finish(&h, id, &tier, seed, &m, r, real_vs_stub(), assumptions());
+    }
+    engine::install_hooks();
+    let hc = cache::PgCache;
+    cfg.secs = if only.as_deref() == Some("cache") { secs } else { secs * 0.3 };
+    let mut rc = run_batch(&hc, &cfg);
+    rc.agg.merge(r.agg);
+    rc.wall_s += r.wall_s;
+    rc.known_hits.extend(r.known_hits);
+    finish(&hc, id, &tier, seed, &m, rc, real_vs_stub(), assumptions())
 }
 
 fn replay(path: &str, quiet: bool) -> i32 {
@@ -132,6 +152,17 @@ fn replay(path: &str, quiet: bool) -> i32 {
                 }
             };
             do_replay(&Pg, &rf, path, quiet)
+        }
+        "dsim-pgcache" => {
+            let rf: ReplayFile<cache::CScenario> = match serde_json::from_value(v) {
+                Ok(r) => r,
+                Err(e) => {
+                    eprintln!("harness error: {e}");
+                    return 2;
+                }
+            };
+            engine::install_hooks();
+            do_replay(&cache::PgCache, &rf, path, quiet)
         }
         other => {
             eprintln!("harness error: unknown harness {other:?} in replay file");
@@ -172,8 +203,35 @@ fn selfcheck(id: &str, args: &[String]) -> i32 {
         });
         out.into_inner().unwrap()
     };
-    let a = pass(16, false);
-    let b = pass(5, true);
+    let mut a = pass(16, false);
+    let mut b = pass(5, true);
+    // thread-level half (engine E1): the same proof for the cache harness
+    engine::install_hooks();
+    let hc = cache::PgCache;
+    let pass_c = |nw: usize, reverse: bool| -> Vec<(u64, u64, u64, Option<String>)> {
+        let out = std::sync::Mutex::new(vec![(0u64, 0u64, 0u64, None); runs as usize]);
+        let next = AtomicU64::new(0);
+        std::thread::scope(|s| {
+            for _ in 0..nw {
+                s.spawn(|| loop {
+                    let k = next.fetch_add(1, Ordering::SeqCst);
+                    if k >= runs {
+                        break;
+                    }
+                    let i = if reverse { runs - 1 - k } else { k };
+                    let mut rng = rng::Rng::new(rng::mix(&[seed, 0xcac4e, i]));
+                    let sc = hc.generate(&mut rng, id, i % 2 == 0);
+                    let o = hc.run(&sc, None, false);
+                    let sig = o.violation.as_ref().map(|v| format!("{} {}", v.signature(), v.detail));
+                    out.lock().unwrap()[i as usize] = (o.log_hash, o.ileave, o.steps, sig);
+                });
+            }
+        });
+        out.into_inner().unwrap()
+    };
+    a.extend(pass_c(16, false));
+    b.extend(pass_c(5, true));
+    let runs = runs * 2;
     let mut bad = 0;
     for i in 0..runs as usize {
         if a[i] != b[i] {
